@@ -325,6 +325,25 @@ def run(ctx, programs, label="eval_tie"):
         if isinstance(d.get("doc"), dict) and "builder_panic" in d["doc"]:
             ctx.violation("the document builder panics on the Spec of an accepted program", {"mods": p["mods"], "main": p["main"]},
                           "a document", d["doc"]["builder_panic"][:200], extra={"layer": "eval"})
+    # the definition graph of the recursion check contains an edge for every use among declarations (RecursionLink.H_edges)
+    gl = [(p, d) for p, d in todo if isinstance(d.get("graph_edges"), list)]
+    gouts = core.run_stateless(core.RUNNER, "edges", [d["prog"] for _, d in gl])
+    for (p, d), go in zip(gl, gouts):
+        if go is None or go == "SKIPPED":
+            continue
+        try:
+            uses = set(tuple(x) for x in parse_sx(go))
+        except Exception:
+            ctx.broken.append("graph tie: unreadable model output %r" % (go[:80],))
+            continue
+        real = set(tuple(int(w) for w in e.strip("()").split()) for e in d["graph_edges"])
+        missing = sorted(uses - real)
+        if missing:
+            ctx.broken.append("graph tie: the definition graph of the code has no edge for a use among declarations (RecursionLink.H_edges) %s: %s" %
+                              (missing[:3], json.dumps({"mods": p["mods"], "main": p["main"]})[:1200]))
+            ctx.count(label + "_graph_edge_missing")
+        else:
+            ctx.count(label + "_graph_edges_cover_uses")
     souts = core.run_stateless(core.RUNNER, "strat", [d["prog"] for _, d in todo])
     for (p, d), so in zip(todo, souts):
         # the hypothesis of the termination theorem: accepted programs are stratified (what cycles_check guarantees)
